@@ -387,7 +387,7 @@ func probe(prober *h.Peer, name string) (owner int, unknown bool) {
 func handoverCase(c *h.Case) {
 	rng := c.Rng
 	pfx := fmt.Sprintf("c%d.", c.Idx)
-	variant := []string{"plain", "delayed-del", "simultaneous", "held-teardown", "held-teardown"}[rng.Intn(5)]
+	variant := []string{"plain", "delayed-del", "simultaneous", "held-teardown", "held-teardown", "cut-before-ack"}[rng.Intn(6)]
 	nNames := 1 + rng.Intn(3)
 	withTCP := rng.Intn(2) == 0
 	nSim := 2 + rng.Intn(3)
@@ -471,6 +471,37 @@ func handoverCase(c *h.Case) {
 		}
 		wg.Wait()
 		run.Count("simultaneous_relogins", int64(nSim))
+	} else if variant == "cut-before-ack" {
+		// A re-login whose connection is cut after frps has accepted it but before the LoginResp is written
+		// (parked at registerControl.beforeStart). The half-made session must not block the run id: the next
+		// re-login with R has to be acknowledged and take over.
+		hold := h.NewGate("server.registerControl.beforeStart", R, 1)
+		defer hold.Release()
+		raw, err := h.DialPeer(h.PeerOpts{ServerPort: srv.Cfg.BindPort, TCPMux: true, Token: token, SkipLogin: true})
+		if err != nil {
+			run.Inconclusive("handover: transport dial failed")
+			return
+		}
+		ts := time.Now().Unix()
+		_ = msg.WriteMsg(raw.Ctl, &msg.Login{Version: "0.62.1", RunID: R, Timestamp: ts, PrivilegeKey: h.AuthKey(token, ts), PoolCount: 1})
+		if !hold.WaitArrived(10 * time.Second) {
+			run.Inconclusive("beforeStart gate not reached")
+			raw.Close()
+			return
+		}
+		raw.Close() // the peer is gone before its login could be acknowledged
+		time.Sleep(20 * time.Millisecond)
+		hold.Release()
+		run.Count("gate_relogin_cut_before_ack", 1)
+		p, err := mk("S2", R)
+		if err != nil || !p.LoggedIn() {
+			c.Violation("relogin-not-acknowledged-after-cut-login", "a re-login with run id %s was cut before its LoginResp; the next re-login with the same run id is not acknowledged: %v", R, err)
+			if p != nil {
+				p.Close()
+			}
+			return
+		}
+		survivors = []*h.Peer{p}
 	} else if variant == "held-teardown" {
 		// park the old session's teardown right after its dispatcher ended: the new login must not be
 		// acknowledged while the old session still holds its resources
